@@ -67,6 +67,8 @@ def gen_cases(rng, tier):
                 cases.append({"k": "made", "how": "splice_right", "a": [max(1, x - 7), x], "b": [y, y + 9]})
             if y >= x:
                 cases.append({"k": "made", "how": "merge", "a": [max(1, x - 3), max(x, y - 5)], "b": [max(x, y - 5), y]})
+                # the same union grown to the LEFT: the later feature first, criteria that accept an overlap on either side
+                cases.append({"k": "made", "how": "merge_left", "a": [max(1, x - 3), max(x, y - 5)], "b": [max(x, y - 5), y]})
     return cases
 
 
@@ -77,10 +79,10 @@ def valid_case(c):
         return all(isinstance(c.get(x), int) for x in ("s0", "e0", "s", "e"))
     if c.get("k") == "made":
         try:
-            return c.get("how") in ("inter", "merge", "splice_left", "splice_right") and len(c["a"]) == 2 and len(c["b"]) == 2 \
+            return c.get("how") in ("inter", "merge", "merge_left", "splice_left", "splice_right") and len(c["a"]) == 2 and len(c["b"]) == 2 \
                 and all(isinstance(v, int) and v >= 1 for v in c["a"] + c["b"]) \
                 and c["a"][0] <= c["a"][1] and c["b"][0] <= c["b"][1] and c["a"][0] <= c["b"][0] \
-                and (c["b"][0] - c["a"][1] >= {"inter": 2, "splice_left": 3, "splice_right": 3}[c["how"]] if c["how"] != "merge"
+                and (c["b"][0] - c["a"][1] >= {"inter": 2, "splice_left": 3, "splice_right": 3}[c["how"]] if c["how"] not in ("merge", "merge_left")
                      else c["b"][0] <= c["a"][1] + 1)
         except Exception:
             return False
@@ -137,6 +139,10 @@ def run_impl(case):
                         + "chr1\ts\texon\t%d\t%d\t.\t+\t.\tID=b;Parent=t\n" % tuple(case["b"]))
                 sites = list(gffutils.create_db(text, ":memory:", from_string=True).create_splice_sites())
                 out = sites[:1] if case["how"] == "splice_left" else sites[1:]
+            elif case["how"] == "merge_left":
+                from gffutils import merge_criteria as mc
+                out = [f for f in db.merge([fb, fa], merge_criteria=(mc.seqid, mc.overlap_any_inclusive, mc.strand, mc.feature_type))
+                       if f.id not in ("a", "b")]
             else:
                 out = [f for f in db.merge([fa, fb]) if f.id not in ("a", "b")]
             if len(out) != 1:
